@@ -131,10 +131,38 @@ from urllib3.connectionpool import HTTPConnectionPool
 from urllib3.exceptions import ReadTimeoutError, HTTPError
 
 
+class ConnClock:
+    """Virtual clock of the pool-level harness: time only passes while a TCP connect is in progress (by the symbolic connect
+    duration), so WHERE in the code the clock is read matters — a budget computed before the connect happened is wrong."""
+
+    def __init__(self, t0):
+        self.now = t0
+        self.sleeps = []
+
+    def monotonic(self):
+        return self.now
+
+    def time(self):
+        return 1_700_000_000
+
+    def sleep(self, s):
+        self.sleeps.append(s)
+
+    def __getattr__(self, name):
+        import time as _t
+        return getattr(_t, name)
+
+
 class OkPeer(N.BaseHandler):
     def __init__(self):
         self.reads = 0
         self.answered = {}
+        self.clock = None
+        self.dt = 0
+
+    def on_connect(self, net, sock):
+        if self.clock is not None:
+            self.clock.now = self.clock.now + self.dt
 
     def on_read(self, sock):
         self.reads += 1
@@ -173,7 +201,9 @@ def _expected(tk, tv, ck, cv, rk, rv, dt):
 def _pool_body(tk, tv, ck, cv, rk, rv, t0, dt, req_level, ptk, ptv, legacy, second):
     peer = OkPeer()
     netw = N.install(peer)
-    clock = E.install_clock(E.FakeTime([t0, t0 + dt, t0 + dt, t0 + dt]))
+    clock = E.install_clock(ConnClock(t0))
+    peer.clock = clock
+    peer.dt = dt
     try:
         total, connect, read = _val(tk, tv), _val(ck, cv), _val(rk, rv)
         if legacy:
@@ -229,8 +259,9 @@ def _pool_body(tk, tv, ck, cv, rk, rv, t0, dt, req_level, ptk, ptv, legacy, seco
         if (not legacy) and to._start_connect is not None:
             return _fail("caller's Timeout object was started")
         if second:
-            clock.samples = [t0 + 1000, t0 + 1000 + dt]
-            clock.i = 0
+            clock.now = clock.now + 1000
+            # the connection is reused: no connect phase, nothing has elapsed when the response wait starts
+            ec2, er = _expected(tk, tv, ck, cv, rk, rv, 0)
             n_before = len(sock.events)
             try:
                 pool.urlopen("GET", "/", retries=False, **kw)
